@@ -62,6 +62,26 @@ def parseInstant (s : Bytes) : Option Int :=
     else none
   | _ => none
 
+/-- The same date-time format with a numeric zone offset instead of `Z` (RFC 3339 `time-numoffset`, the general form of
+    which the AWS document's UTC spelling is the special case): `…±HH:MM` denotes the instant `local − offset`. Used by the
+    correspondence judge for policies whose expiration is written that way — an expiration is an instant, whatever the zone
+    it is written in. -/
+def parseInstantAnyZone (s : Bytes) : Option Int :=
+  match parseInstant s with
+  | some t => some t
+  | none =>
+    let n := s.length
+    if n < 6 then none
+    else
+      match s.drop (n - 6) with
+      | [sg, h0, h1, 58, m0, m1] =>
+        let hh := decVal [h0, h1]; let mm := decVal [m0, m1]
+        if (sg == 43 || sg == 45) && [h0, h1, m0, m1].all isDigitB && hh ≤ 23 && mm ≤ 59 then
+          (parseInstant (s.take (n - 6) ++ [90])).map fun t =>
+            if sg == 43 then t - ((hh * 3600 + mm * 60 : Nat) : Int) else t + ((hh * 3600 + mm * 60 : Nat) : Int)
+        else none
+      | _ => none
+
 /-- `$field` → lower-cased field name -/
 def fieldRef (s : Bytes) : Option Bytes :=
   match s with
